@@ -88,6 +88,7 @@ class Own:
         self.stack = set()
         self.inlined = set()
         self.matmul_may_alias = self._matmul_may_alias()
+        self.nonempty_loops = set()  # id(call) of loops a client has shown to run at least once: their result is what the body returns
         self.methods_by_name = {}
         for ci in idx.classes.values():
             for name, m in ci.methods.items():
@@ -572,6 +573,7 @@ class _State:
         body = lp._fn_of(self.idx, self.fi, b.get("body_fun")) if b.get("body_fun") is not None else None
         cond = lp._fn_of(self.idx, self.fi, b.get("cond_fun")) if b.get("cond_fun") is not None else None
         state = io
+        last_body = None
         for _ in range(3):
             new = set(state)
             for fn in (body, cond):
@@ -610,11 +612,14 @@ class _State:
                             else:
                                 out.add(o)
                         return frozenset(out)
-                    new |= subst(sub.ret)
+                    last_body = subst(sub.ret)
+                    new |= last_body
             new = merge_tuples(frozenset(new))
             if new == state:
                 break
             state = new
+        if id(c) in self.own.nonempty_loops and last_body is not None:
+            return merge_tuples(last_body)
         return state
 
     # ---- write sites
